@@ -75,6 +75,12 @@ def grid_spec(draw, types=GRID_TYPES, max_refine=2, dimension=1):
         g["r_rel"] = draw(_f(4.0, 40.0))
     elif t == "probstep":
         g["p_step"] = draw(_f(0.02, 0.2))
+    elif t == "axes":
+        # a grid the user assembles from an axis of their own (base CTMCGrid): irregular gaps, and possibly states on one
+        # side of the origin only - the sampling factory has a branch of its own for each of the three supports
+        g["side"] = draw(st.sampled_from(["both", "both", "left-only", "right-only"]))
+        g["gaps_left"] = [float(f"{x:.4g}") for x in draw(st.lists(_f(0.3, 3.0), min_size=2, max_size=9))]
+        g["gaps_right"] = [float(f"{x:.4g}") for x in draw(st.lists(_f(0.3, 3.0), min_size=2, max_size=9))]
     g["refine"] = draw(st.integers(0, max_refine))
     return g
 
@@ -111,6 +117,16 @@ def build_grid(gspec, model, model_spec=None, h=None, refine=True):
     elif t == "probstep":
         g = CTMCGridProbabilityStep(h=h, model=model, minimum_probability_step=gspec["p_step"],
                                     dimension=dim)
+    elif t == "axes":
+        from rpylib.grid.spatial import CTMCGrid
+
+        left = [] if gspec["side"] == "right-only" else list(-np.cumsum([h] + [h * x for x in gspec["gaps_left"]]))[::-1]
+        right = [] if gspec["side"] == "left-only" else list(np.cumsum([h] + [h * x for x in gspec["gaps_right"]]))
+        g = CTMCGrid(h=h, origin_coordinate=len(left), axes=[np.array(left + [0.0] + right)] * dim)
+        if refine:
+            for _ in range(gspec.get("refine", 0)):
+                g.refine()
+        return g
     else:
         raise ValueError(t)
     for axis in g.axes:
